@@ -236,6 +236,10 @@ class C18(core.Prop):
                             for mode in ('embed', 'roundtrip', 'roundtrip_conf'):
                                 out.append({'mode': mode, 'n': n, 'edges': [list(e) for e in edges], 'perm': list(p),
                                             'keyset': keyset, 'extra_h': extra_h})
+                                if mode == 'embed' and keyset == 'perm' and n >= 3 and extra_h == 0:
+                                    # an explicitly written hydrogen that is not last in the graph's iteration order
+                                    out.append({'mode': mode, 'n': n, 'edges': [list(e) for e in edges], 'perm': list(p),
+                                                'keyset': keyset, 'extra_h': extra_h, 'h_second': True})
         for nbeads, nmem in ((2, 2), (2, 3)) if q else ((2, 2), (2, 3), (3, 2), (2, 4)):
             for shared in (False, True):
                 out.append({'mode': 'forward', 'nbeads': nbeads, 'nmem': nmem, 'shared': shared})
@@ -266,7 +270,8 @@ class C18(core.Prop):
                 symx.ENG.add(tot.e > 0)
             return {'pos': pos, 'w': w}
         n = shape['n']
-        el = ['C', 'N', 'O', 'S', 'F', 'Cl'][:n]           # pairwise different: an RDKit atom is identified by its symbol
+        # pairwise different: an RDKit atom is identified by its symbol; a hydrogen that is not the last node in iteration order
+        el = (['C', 'H', 'O', 'S', 'F', 'Cl'] if shape.get('h_second') else ['C', 'N', 'O', 'S', 'F', 'Cl'])[:n]
         charges = [sym_int('q%d' % i, -1, 1) for i in range(n)]
         if shape['mode'] == 'embed' or (shape['n'] >= 4 and shape['keyset'] == 'sparse') or len(shape['edges']) > 3:
             orders = [1 + (k % 2) for k in range(len(shape['edges']))]     # bond orders play no role for the index mapping
